@@ -62,13 +62,14 @@ Check eq_refl : gen_manifest_json_ex_buf gen_fmt_default (JArr [JArr []]) [120] 
     read-back theorems hold, and the text reads back *)
 Example C05_source_nonvacuous :
   Forall (fun o => opts_ok o = true /\ nums_ok sample_nested = true /\ has_fun sample_nested = false /\
-                   exists out, gen_manifest_json_ex o sample_nested = Some out /\ (40 < length out)%nat /\
+                   exists out, gen_manifest_json_ex o sample_nested = Some out /\ Nat.ltb 40 (length out) = true /\
                                json_read out = Some sample_nested)
          [gen_fmt_default; gen_fmt_minify; gen_fmt_std_to_string_helper; gen_fmt_cli 0; gen_fmt_cli 3;
           gen_fmt_std_to_json [9] [13; 10] [32; 58; 32]].
 Proof.
-  repeat constructor; try (vm_compute; reflexivity);
-    (eexists; split; [vm_compute; reflexivity|]; split; [vm_compute; repeat constructor | vm_compute; reflexivity]).
+  repeat (apply Forall_cons); try apply Forall_nil;
+    (split; [vm_compute; reflexivity|]; split; [vm_compute; reflexivity|]; split; [vm_compute; reflexivity|];
+     eexists; split; [vm_compute; reflexivity|]; split; vm_compute; reflexivity).
 Qed.
 
 (** the rejecting side of C05_source_function_rejected is inhabited *)
